@@ -2,6 +2,7 @@ package scen
 
 import (
 	"fmt"
+	"strings"
 
 	"mcrt"
 )
@@ -185,7 +186,11 @@ func init() {
 				bound = 2
 			}
 			for _, sp := range c17Programs(tier) {
-				its := specItemsMixed("C17", sp, bound, 1, allStrats, nil, c17Oracle)
+				b := bound
+				if strings.HasPrefix(sp.Name, "c17-two") || strings.HasPrefix(sp.Name, "c17-late") {
+					b = 1 // the programs of the two recorded findings: every execution of theirs runs to the horizon
+				}
+				its := specItemsMixed("C17", sp, b, 1, allStrats, nil, c17Oracle)
 				for i := range its {
 					// executions of these programs have < 800 visible operations; a short horizon keeps the
 					// (known) non-terminating ones cheap
